@@ -24,3 +24,89 @@ package parser
 //@   ensures has_newline: iff(hasNewline, len(chunk) < len(s))
 //@   ensures remaining_after_newline: remaining == substr(s, len(chunk) + nlLen(s, len(chunk)), len(s))
 //@   ensures remaining_shorter: hasNewline ==> len(remaining) < len(s)
+
+// ---------------------------------------------------------------------------------------------------------
+// field_parser.go: one line -> one field (C01, C14, C15, C20)
+// ---------------------------------------------------------------------------------------------------------
+
+//@ pure trimsp(x) = ite(len(x) > 0 && x[0] == ' ', substr(x, 1, len(x)), x)
+//@ pure colon(chunk) = indexbyte(chunk, ':')
+//@ pure lname(chunk) = substr(chunk, 0, ite(colon(chunk) == -1, len(chunk), colon(chunk)))
+//@ pure lvalue(chunk) = ite(colon(chunk) == -1, "", trimsp(substr(chunk, colon(chunk)+1, len(chunk))))
+//@ pure knownname(s) = s == "data" || s == "event" || s == "retry" || s == "id"
+
+//@ func trimFirstSpace
+//@   ensures definition: result == trimsp(c)
+//@   ensures shorter: len(result) <= len(c)
+
+//@ func getFieldName
+//@   ensures decides: iff(result1, knownname(b))
+//@   ensures name_data: iff(result == "data", b == "data")
+//@   ensures name_event: iff(result == "event", b == "event")
+//@   ensures name_retry: iff(result == "retry", b == "retry")
+//@   ensures name_id: iff(result == "id", b == "id")
+//@   ensures unknown_is_empty: !result1 ==> result == ""
+
+//@ func FieldParser.scanSegment
+//@   requires f != nil && out != nil && singleLine(chunk)
+//@   modifies out.Name, out.Value
+//@   ensures known_field_accepted: knownname(lname(chunk)) ==> result && out.Value == lvalue(chunk)
+//@   ensures known_field_name_data: knownname(lname(chunk)) ==> iff(out.Name == "data", lname(chunk) == "data")
+//@   ensures known_field_name_event: knownname(lname(chunk)) ==> iff(out.Name == "event", lname(chunk) == "event")
+//@   ensures known_field_name_retry: knownname(lname(chunk)) ==> iff(out.Name == "retry", lname(chunk) == "retry")
+//@   ensures known_field_name_id: knownname(lname(chunk)) ==> iff(out.Name == "id", lname(chunk) == "id")
+//@   ensures blank_line_is_dispatch: chunk == "" ==> result && out.Name == "" && out.Value == ""
+//@   ensures comment_kept_on_request: chunk != "" && chunk[0] == ':' ==> result == f.keepComments
+//@   ensures comment_field: chunk != "" && chunk[0] == ':' && f.keepComments ==> out.Name == ":" && out.Value == trimsp(substr(chunk, 1, len(chunk)))
+//@   ensures other_lines_ignored: chunk != "" && chunk[0] != ':' && !knownname(lname(chunk)) ==> !result
+//@   ensures rejected_leaves_out: !result ==> *out == old(*out)
+//@   ensures value_single_line: result ==> singleLine(out.Value)
+//@   ensures name_is_valid: result ==> out.Name == "" || out.Name == ":" || knownname(out.Name)
+
+//@ pure validname(n) = n == "" || n == ":" || knownname(n)
+//@ pure suffixof(s, d) = len(s) <= len(d) && s == substr(d, len(d) - len(s), len(d))
+
+//@ func FieldParser.Next
+//@   requires f != nil && r != nil
+//@   modifies f.data, f.err, f.started, r.Name, r.Value
+//@   ensures rest_is_suffix: suffixof(f.data, old(f.data))
+//@   ensures field_is_valid: result ==> validname(r.Name) && singleLine(r.Value)
+//@   ensures field_consumes_whole_lines: result ==> len(f.data) < old(len(f.data)) && isNL(old(f.data)[old(len(f.data)) - len(f.data) - 1])
+//@   ensures comments_only_if_kept: result && r.Name == ":" ==> f.keepComments
+//@   ensures exhausted: !result ==> (f.data == "" && f.err == old(f.err)) || (f.err == ErrUnexpectedEOF && f.data != "" && singleLine(f.data))
+//@   ensures no_field_leaves_out: !result ==> *r == old(*r)
+//@   ensures error_only_when_exhausted: result ==> f.err == old(f.err)
+//@   ensures started_when_input: old(f.data) != "" ==> f.started
+//@   ensures not_started_without_input: old(f.data) == "" ==> f.started == old(f.started) && !result
+//@   invariant 0 rest_is_suffix: suffixof(f.data, old(f.data))
+//@   invariant 0 nothing_reported_yet: f.err == old(f.err) && *r == old(*r)
+//@   invariant 0 started_tracks_input: ite(len(f.data) == old(len(f.data)), f.started == old(f.started), f.started)
+//@   invariant 0 consumed_lines_end: len(f.data) < old(len(f.data)) ==> isNL(old(f.data)[old(len(f.data)) - len(f.data) - 1])
+
+//@ func FieldParser.doRemoveBOM
+//@   requires f != nil
+//@   modifies f.data, f.started
+//@   ensures strips_bom_once: old(f.removeBOM && !f.started && len(f.data) >= 3 && f.data[0] == 239 && f.data[1] == 187 && f.data[2] == 191) ==> f.data == substr(old(f.data), 3, old(len(f.data))) && f.started
+//@   ensures otherwise_untouched: !old(f.removeBOM && !f.started && len(f.data) >= 3 && f.data[0] == 239 && f.data[1] == 187 && f.data[2] == 191) ==> f.data == old(f.data) && f.started == old(f.started)
+
+//@ func FieldParser.Reset
+//@   requires f != nil
+//@   modifies f.data, f.err, f.started
+//@   ensures error_cleared: f.err == nil
+//@   ensures bom_stripped: f.removeBOM && len(data) >= 3 && data[0] == 239 && data[1] == 187 && data[2] == 191 ==> f.data == substr(data, 3, len(data)) && f.started
+//@   ensures data_installed: !(f.removeBOM && len(data) >= 3 && data[0] == 239 && data[1] == 187 && data[2] == 191) ==> f.data == data && !f.started
+
+//@ func FieldParser.RemoveBOM
+//@   requires f != nil
+//@   modifies f.removeBOM, f.data, f.started
+//@   ensures option_set: f.removeBOM == shouldRemove
+//@   ensures strips_bom_once: shouldRemove && old(!f.started && len(f.data) >= 3 && f.data[0] == 239 && f.data[1] == 187 && f.data[2] == 191) ==> f.data == substr(old(f.data), 3, old(len(f.data))) && f.started
+//@   ensures otherwise_untouched: !(shouldRemove && old(!f.started && len(f.data) >= 3 && f.data[0] == 239 && f.data[1] == 187 && f.data[2] == 191)) ==> f.data == old(f.data) && f.started == old(f.started)
+
+//@ func FieldParser.KeepComments
+//@   requires f != nil
+//@   modifies f.keepComments
+//@   ensures option_set: f.keepComments == shouldKeep
+
+//@ func NewFieldParser
+//@   ensures fresh_parser: result != nil && fresh(result) && allocated(result) && result.data == data && result.err == nil && !result.started && !result.keepComments && !result.removeBOM
